@@ -180,6 +180,13 @@ Definition mresult (r : motor * list mev * result mret) : result mret := snd r.
 Definition mrun (ops : list mop) (m : motor) : motor :=
   fold_left (fun st op => mstate (mstep st op)) ops m.
 
+(* everything a history emits, in order *)
+Fixpoint mtrace (ops : list mop) (m : motor) : list mev :=
+  match ops with
+  | [] => []
+  | op :: r => mevents (mstep m op) ++ mtrace r (mstate (mstep m op))
+  end.
+
 (* observers of an event list *)
 Fixpoint sleeps (l : list mev) : list Q :=
   match l with
